@@ -116,15 +116,17 @@ func (st *Runtime) YieldBlock(name string, context interface{}) {
 		panic(fmt.Errorf("Block %q was not found!!", name))
 	}
 
+	// like {{yield name() context}}: the block's parameters take their defaults
+	noArguments := &BlockParameterList{}
 	if context != nil {
 		current := st.context
 		st.context = reflect.ValueOf(context)
-		st.executeList(block.List)
+		st.executeYieldBlock(block, block.Parameters, noArguments, nil, nil)
 		st.context = current
 		return
 	}
 
-	st.executeList(block.List)
+	st.executeYieldBlock(block, block.Parameters, noArguments, nil, nil)
 }
 
 func (st *scope) getBlock(name string) (block *BlockNode, has bool) {
